@@ -145,6 +145,25 @@ class ManagedRoles:
         return out
 
     def _bind_size_max(self):
+        # preferred: the constructor (size starts at the constant 0, max_size comes from the configuration)
+        fb = self.prog.body('deadpool::managed::Pool::from_builder')
+        if fb is not None:
+            an = self.prog.an(fb)
+            for blk in fb.blocks:
+                for s in blk.stmts:
+                    if s.kind == 'assign' and s.rv.kind == 'agg' and s.rv.j.get('adt') == self.SLOTS:
+                        size = mx = None
+                        for fname, op in zip(s.rv.j['fields'], s.rv.ops):
+                            ty = [f for f in self.crate.adt(self.SLOTS)['variants'][0]['fields'] if f['name'] == fname][0]['ty']
+                            if ty != 'usize':
+                                continue
+                            v = an.resolve_operand(op)
+                            if v == '0_usize':
+                                size = fname
+                            else:
+                                mx = fname
+                        if size and mx:
+                            return size, mx
         st = self._body('deadpool::managed::Pool::status')
         an = self.prog.an(st)
         size = mx = None
